@@ -160,7 +160,9 @@ theorem finishReal_sign (c : List Nat) (e : Nat) (neg : Bool) (num off tmp start
     simp only [Option.some.injEq] at h; subst h
     have := tailLoop_inl c e num _ _ _ _ _ hr'
     rw [this] at hk; cases hk
-  · exact realResult_sign _ _ _ _ _ _ r h hk
+  · split at h
+    · simp only [Option.some.injEq] at h; subst h; cases hk
+    · exact realResult_sign _ _ _ _ _ _ r h hk
 
 end Qentem.StrToNum
 
